@@ -4,6 +4,7 @@ CONSTANTS
   NSlots = {"n4"}
   Prog <- MC_Prog
   None = None
+  AsBuiltClean = TRUE
   MaxPre = 1
   MaxPPost = 1
   MaxSTicks = 1
